@@ -94,7 +94,7 @@ def text(chars):
 
 def describe_step(st):
     rq = st["rq"]
-    return "%s %s%s" % (st["op"], ("Host: %s " % text(rq["host"])) if rq["hh"] else "(no Host) ", text(rq["path"]))
+    return "%s %s%s" % (st.get("op") or rq.get("kind", "?"), ("Host: %s " % text(rq["host"])) if rq["hh"] else "(no Host) ", text(rq["path"]))
 
 
 def conf_of(cfg):
